@@ -132,6 +132,16 @@ Theorem C10_internal_terminates : forall vr iv s e s',
 Proof. exact Proofs_wedge.internal_decreases. Qed.
 Print Assumptions C10_internal_terminates.
 
+(* Put together: from EVERY reachable state of the current code, the batcher's own steps alone
+   (no help from callers, clock, consumers or contexts) lead to a state that is at rest — every
+   Subscribe / Close call has returned, the lock is free — or held up by a LIVE subscriber that
+   does not read. [quiesce] runs internal steps until none is enabled. *)
+Theorem C10_comes_to_rest : forall iv s, reachable Fixed iv s ->
+  reachable Fixed iv (quiesce Fixed iv s) /\
+  (at_rest (quiesce Fixed iv s) \/ blocked_on_live (quiesce Fixed iv s)).
+Proof. exact Proofs_wedge.comes_to_rest. Qed.
+Print Assumptions C10_comes_to_rest.
+
 (* The code before the fix: there is a schedule (a subscriber that never reads, 52 values so that
    the 52nd delivery blocks on its full buffer while holding the lock, the subscriber's context
    ends, Close is called) after which every subscriber's context has ended and yet — whatever
